@@ -108,7 +108,7 @@ def walk(w, rnd, profile, steps, opts):
         elif name == "connack_bad":
             do(w.recv(a, W.connack(rnd.choice([1, 2, 3, 4, 5]), 0)))
         elif name == "publish":
-            q = rnd.choice([0, 1, 1, 2, 2])
+            q = rnd.choice(opts.get("qos", [0, 1, 1, 2, 2]))
             if rnd.random() < 0.04:
                 q = rnd.choice([3, -1, None])
             pl = rnd.choice(PAYLOADS)
@@ -214,7 +214,7 @@ def main():
     for p in ("pub", "sub", "both"):
         files[p] = open(os.path.join(outdir, p + ".ndjson"), "w"); idx[p] = []; lines[p] = 0
     for tid in range(1, n + 1):
-        prof = rnd.choice({"subs": ["sub", "both"], "retry": ["pub", "both", "both"]}.get(fam, ["pub", "sub", "both", "both"]))
+        prof = rnd.choice({"subs": ["sub", "both"], "retry": ["pub", "both", "both"], "qos2": ["pub", "both"]}.get(fam, ["pub", "sub", "both", "both"]))
         w = W.World(prof, len(idx[prof]) + 1, files[prof])
         opts = {"maxgen": 3, "clean": rnd.choice([0.0, 0.5, 1.0]), "wrap": fam == "wrap" or (fam == "mixed" and rnd.random() < 0.25)}
         if fam == "session":      # many losses of every kind, several generations, both session modes
@@ -223,6 +223,9 @@ def main():
             opts.update(maxgen=2, maxfires=24, drain=10, wt={"fire": 9, "set": 2.5, "lost": 0.2, "disconnect": 0.05, "publish": 4}, ka=[0])
         elif fam == "keepalive":
             opts.update(maxgen=3, maxfires=30, drain=4, wt={"fire": 6, "idle": 4, "lost": 0.4, "publish": 1.5, "subscribe": 0.5, "unsubscribe": 0.3}, ka=[1, 2, 5, 60, 0])
+        elif fam == "qos2":       # QoS 2 exchanges only, mostly persistent sessions, publishes before CONNACK, many expiries
+            opts.update(maxgen=4, maxfires=20, drain=8, qos=[2, 2, 2, 1], clean=rnd.choice([0.0, 0.0, 0.3]),
+                        wt={"publish": 6, "fire": 5, "ack": 9, "lost": 1.0, "set": 0.6, "subscribe": 0.1, "unsubscribe": 0.1, "disconnect": 0.1}, ka=[0])
         elif fam == "subs":
             opts.update(maxgen=4, wt={"subscribe": 6, "unsubscribe": 5, "publish": 1, "lost": 1.2, "set": 2}, ka=[0])
         try:
